@@ -243,6 +243,8 @@ def gen_inj(full):
     'Two': [R('J', x, y, body=(Lit('K', y, x),)), R('K', x, y, body=(Lit('A', x, z), Eq(y, Bin('+', z, x))))],
     'Const': [R('J', x, N(1), body=(Lit('B', x),))],
     'Expr': [R('J', x, Bin('+', x, y), body=(Lit('A', x, y),))],
+    'TwoCons': [R('J', x, y, body=(Lit('A', x, y), Cmp('<=', x, y), Cmp('>', y, N(1))))],
+    'ThreeCons': [R('J', x, y, body=(Lit('A', x, z), Cmp('<=', x, z), Eq(y, Bin('+', z, N(1))), Cmp('>', y, N(2)), Cmp('!=', x, y)))],
   }
   for name, defs in J.items():
     named = name == 'Named'
@@ -788,7 +790,7 @@ PLAN_ANNS = [None, '@NoInject(%s);', '@With(%s);', '@NoWith(%s);', '@Ground(%s);
 def c08_shapes(thorough):
   D = lambda *a, **k: R(*a, distinct=True, **k)
   S = {}
-  S['chain'] = ([R('P', x, y, body=(Lit('A', x, y), Cmp('<=', x, y))), R('Q', x, y, body=(Lit('P', x, y), Lit('B', y))), R('T', x, body=(Lit('Q', x, y),))], ['P', 'Q'])
+  S['chain'] = ([R('P', x, y, body=(Lit('A', x, y), Cmp('<=', x, y), Cmp('>', y, N(1)), Cmp('!=', Bin('+', x, y), N(5)))), R('Q', x, y, body=(Lit('P', x, y), Lit('B', y))), R('T', x, body=(Lit('Q', x, y),))], ['P', 'Q'])
   S['diamond'] = ([R('P', x, y, body=(Lit('A', x, y),)), R('Q', x, body=(Lit('P', x, y),)), R('S', y, body=(Lit('P', x, y), Lit('B', x))), R('T', x, y, body=(Lit('Q', x), Lit('S', y)))], ['P', 'Q', 'S'])
   S['twice'] = ([R('P', x, y, body=(Lit('A', x, y),)), R('T', x, z, body=(Lit('P', x, y), Lit('P', y, z)))], ['P'])
   S['combine_neg'] = ([R('P', x, y, body=(Lit('A', x, y), Lit('B', x))), R('Q', x, body=(Lit('A', x, x),)),
